@@ -62,7 +62,8 @@ Proof.
   destruct (ss && match strip (c0 :: L) with [] => true | _ :: _ => false end); [reflexivity|].
   destruct (starts_hash (c0 :: L)).
   - destruct h; reflexivity.
-  - destruct (py_len (map (strip_f sq ss) (split_on 9 (c0 :: L))) <? py_len h) eqn:E.
+  - rewrite ?Z.gtb_ltb.
+    destruct (py_len (map (strip_f sq ss) (split_on 9 (c0 :: L))) <? py_len h) eqn:E.
     + rewrite (pad_lt _ _ E). reflexivity.
     + rewrite <- (pad_ge _ _ E). reflexivity.
 Qed.
